@@ -97,7 +97,7 @@ Boolean AddCPUAlias(char* OrigName, char* AliasName) {
         Neu->Number     = CPUCnt++;
         Neu->Orig       = Lauf->Orig;
         Neu->SwitchProc = Lauf->SwitchProc;
-        Neu->FreeProc   = Lauf->FreeProc;
+        Neu->FreeProc   = NULL; /* user data is shared with and owned by the original */
         Neu->pUserData  = Lauf->pUserData;
         Neu->pArgs      = Lauf->pArgs;
         while (Lauf->Next) {
